@@ -57,6 +57,8 @@ type HObs struct {
 	CtxErr      error
 	Spec        connect.Spec
 	Peer        string
+	Panicked    bool
+	PanicValue  any
 }
 
 // CallObs is everything observed about one call.
@@ -155,8 +157,8 @@ func (w *World) buildHandlers(idx int, cfg *HandlerCfg) [4]http.Handler {
 				return connect.NewError(connect.CodeInternal, errors.New("sim: recover without call"))
 			}
 			o.Recovered = append(o.Recovered, v)
-			if w.recoverErr != nil {
-				return w.recoverErr(o, v)
+			if rp := o.Plan.RecoverErr; rp != nil {
+				return rp.build(ctx)
 			}
 			return connect.NewError(connect.CodeAborted, fmt.Errorf("recovered: %v", v))
 		})
@@ -209,8 +211,13 @@ func (t *tagInterceptor) WrapStreamingHandler(next connect.StreamingHandlerFunc)
 }
 
 func (w *World) obsFromCtx(ctx context.Context) *CallObs {
-	o, _ := ctx.Value(obsKey{}).(*CallObs)
-	return o
+	if o, ok := ctx.Value(obsKey{}).(*CallObs); ok {
+		return o
+	}
+	if c := simhttp.ServerCallOf(ctx); c != nil {
+		return w.byID[c.ID]
+	}
+	return nil
 }
 
 func (w *World) client(p *CallPlan) *connect.Client[Msg, Msg] {
@@ -409,7 +416,9 @@ func (w *World) runProg(ctx context.Context, o *CallObs, st hstream) {
 				merge(st.hdr(), p.LateHeader)
 			}
 		case "panic":
-			panic(p.HPanic.value())
+			v := p.HPanic.value()
+			h.PanicValue, h.Panicked = v, true
+			panic(v)
 		case "waitctx":
 			<-ctx.Done()
 		case "sleep":
